@@ -181,6 +181,8 @@ def row_wrappers(ctx, ld):
                     ok, why = False, 'the stripped value is not the string cell stored back under its own key'
     run.check(ok, 'R12', stp.where, stp.qualname, 'for k, v in r.items(): if str: r[k] = v.strip(); yield r',
               'stripping does not treat every string cell of every row: ' + why)
+    if 'stringer' not in ld.methods:
+        raise AnalysisError('load.stringer not found (the row wrapper of the strings strategy)')
     sg = ctx.N(ld.methods['stringer'])
     loop, var, _ = observers.single_row_loop(ctx, sg)
     ys = [y for y in ast.walk(loop) if isinstance(y, ast.Yield)]
@@ -449,8 +451,8 @@ def check(ctx):
     run = ctx.run
     ld = ctx.repo.cls(LOAD)
     wrappers(ctx, ld)
+    headers_and_tables(ctx, ld)      # the strategy tables first: they name the row wrappers the next clause looks at
     row_wrappers(ctx, ld)
-    headers_and_tables(ctx, ld)
     selection(ctx, ld)
     from rules import independence
     independence.r28_functions(ctx, [(LOAD + '.stripper', {}), (LOAD + '.stringer', {}), (LOAD + '.missing_values_extractor', {}),
